@@ -19,7 +19,7 @@ RULE = ("run = pool of 2-7 named games (paper/example files, generator boards, r
         "depth; non-trivial = a batch with >=2 games of which one prunes something, or a failing game adjacent to a solvable one; "
         "distinct = hash of (batch shapes, game hashes, fault kinds fired)")
 
-NAMES = ["g", "game_a", "game_b", "x1", "fig_5_5", "a", "b2", "robot_47", "test", "n0", "big_reward", "z_9", "g_", "_", "0", "a_no", "x"*3 + "_" + "9"*40, "no_prune", "x_no_prune_v2", "_no_prune_", "dise\u00f1o"]
+NAMES = ["g", "game_a", "game_b", "x1", "fig_5_5", "a", "b2", "robot_47", "test", "n0", "big_reward", "z_9", "g_", "_", "0", "a_no", "x"*3 + "_" + "9"*40, "no_prune", "x_no_prune_v2", "_no_prune_", "dise\u00f1o", "grid{3x3}", "cell{n_states}", "odds_%_9"]
 RESULT_KEYS = ("final_strategies", "reachability_strategies", "rewards", "probabilities",
                "n_iterations_reach", "n_iterations_rew", "prob_min_rew", "rew_min_reach")
 
